@@ -1,7 +1,47 @@
-(** C10 — statements; see Proofs/ *)
-From Wasp Require Import Model.Base Model.DState.
-From stdpp Require Import list.
+(** C10 — A full-state exchange brings a lagging node up to date.  Statements only. *)
+From Wasp Require Import Model.Base Spec.MatchSpec Model.DState Proofs.BaseFacts Proofs.Lww Proofs.DStateFacts.
+From stdpp Require Import list strings.
 Open Scope Z_scope.
-Theorem C10_placeholder_ts_max : ∀ la ld, la ≤ last_update la ld ∧ ld ≤ last_update la ld.
-Proof. intros la ld. unfold last_update. destruct (Z.ltb_spec ld la); lia. Qed.
-Print Assumptions C10_placeholder_ts_max.
+
+(** [dump A] is A's full-state snapshot (LocalState): every entry of every store, tombstones
+    included.  After B merges it, B holds under every key the newer of its own entry and A's
+    ([joined]: A's entry replaces B's iff its timestamp is strictly greater) - for ARBITRARY
+    states A and B satisfying the representation invariant, in particular any pair reachable
+    by any histories with any subset of the gossip between them lost. *)
+Theorem snapshot_merge_is_join : ∀ A B, dok A → dok B →
+  let B' := merge_event B (dump A) in
+  (∀ k, abs_sess (d_sess B') k = joined sess_ts (abs_sess (d_sess A) k) (abs_sess (d_sess B) k)) ∧
+  (∀ k, abs_subs (d_subs B') k = joined sub_ts (abs_subs (d_subs A) k) (abs_subs (d_subs B) k)) ∧
+  (∀ k, abs_ret (d_ret B') k = joined ret_ts (abs_ret (d_ret A) k) (abs_ret (d_ret B) k)).
+Proof. exact snapshot_merge. Qed.
+Print Assumptions snapshot_merge_is_join.
+
+(** every entry of A that is newer than B's copy - addition or removal - is reflected on B *)
+Theorem snapshot_brings_newer : ∀ {V} (ts : V → Z) (a : V) (ob : option V),
+  (ob = None ∨ ∃ b, ob = Some b ∧ ts b < ts a) → joined ts (Some a) ob = Some a.
+Proof. exact @joined_newer. Qed.
+Print Assumptions snapshot_brings_newer.
+
+(** a fresh B then holds exactly what A holds *)
+Theorem fresh_equals_source : ∀ A p, dok A → same_abs (merge_event (dnew p) (dump A)) A.
+Proof. exact fresh_equals_source. Qed.
+Print Assumptions fresh_equals_source.
+
+(** after snapshots in both directions the two nodes hold identical entries *)
+Theorem exchange_converges : ∀ A B, dok A → dok B → cross_tie_free A B →
+  same_abs (merge_event A (dump B)) (merge_event B (dump A)).
+Proof. exact exchange_converges. Qed.
+Print Assumptions exchange_converges.
+
+(** the invariant holds initially and is preserved by every operation and every merge
+    (see C09's theorems for [dapply]; merges: inside [receiver_equals_origin]) *)
+Theorem invariant_initially : ∀ p, dok (dnew p).
+Proof. exact dok_new. Qed.
+Print Assumptions invariant_initially.
+
+(** non-vacuity: B missed a removal; the snapshot carries the tombstone *)
+Example c10_history :
+  let A := (sess_delete (sess_create (dnew 1) "s" "c" "mp" None 10).1 "s" 20).1 in
+  let B := merge_event (dnew 2) (BEvent [SMeta "s" "c" "mp" 1 None 10 0] [] []) in
+  map m_sid (sess_all B) = ["s"] ∧ sess_all (merge_event B (dump A)) = [] ∧ length (b_sess (dump A)) = 1%nat.
+Proof. vm_compute. done. Qed.
